@@ -40,15 +40,22 @@ impl<'n> TryFromNode<'n> for Field {
         target_namespace.clone_from(&doc.current_target_namespace);
 
         let is_attribute = node.tag_name().name() == "attribute";
-        let parent_is_optional = node.parent().and_then(|n| n.attribute("minOccurs")) == Some("0");
-        let is_choice = node.parent().is_some_and(|n| n.tag_name().name() == "choice");
+        // the occurrence of every enclosing group (nested sequences and choices) counts, not only
+        // that of the direct parent
+        let groups = || {
+            node.ancestors()
+                .skip(1)
+                .take_while(|n| matches!(n.tag_name().name(), "sequence" | "choice" | "all"))
+        };
+        let parent_is_optional = groups().any(|n| n.attribute("minOccurs") == Some("0"));
+        let is_choice = groups().any(|n| n.tag_name().name() == "choice");
         let is_optional = if is_attribute {
             node.attribute("use") != Some("required")
         } else {
             // only one branch of a choice is present at a time
             node.attribute("minOccurs") == Some("0") || parent_is_optional || is_choice
         };
-        let parent_is_vec = may_repeat(node.parent().and_then(|n| n.attribute("maxOccurs")));
+        let parent_is_vec = groups().any(|n| may_repeat(n.attribute("maxOccurs")));
         let is_vec = may_repeat(Node::attribute(&node, "maxOccurs")) || parent_is_vec;
 
         // check if this is an any type
